@@ -22,7 +22,7 @@ RULE = ('valid configs (bindings string or file, include trees to depth 3, 3-15 
         'quick samples positions, thorough enumerates every position x kind of each generated config. distinct = (config shape, position class, fault kind)')
 TIERS = {
     'quick': {'workers': 8, 'cases': 60, 'timeout': 900, 'faults_per_config': 40, 'all_positions': False},
-    'thorough': {'workers': 16, 'cases': 200, 'timeout': 3400, 'faults_per_config': 0, 'all_positions': True},
+    'thorough': {'workers': 16, 'cases': 100, 'timeout': 3400, 'faults_per_config': 0, 'all_positions': True},
 }
 FAULTS = {
     # kind: (lines, expected exception classes, semantic?, accepts-any-line-in-span?)
